@@ -58,6 +58,15 @@ def run(tier, seed):
             p["runs"] = [{"dom": d, "mode": "fb", "bwd": 1, "refine": ck.rng.choice([0, 1, 5]), "use_refined": ck.rng.choice([0, 1]),
                           "wd": ck.rng.choice([0, 1, 2]), "desc": ck.rng.choice([0, 1, 2]), "th": ck.rng.choice([0, 0, 5])} for d in FB_DOMS]
             ps.append(p)
+        if off == 0:   # fixed regression cases (replays of earlier findings)
+            import os
+            rd = os.path.join(vlib.ROOT, "tools", "regress")
+            for f in sorted(os.listdir(rd)):
+                if f.startswith("c02_"):
+                    q = json.load(open(os.path.join(rd, f)))
+                    q["runs"] = [{"dom": d, "mode": "fb", "bwd": 1, "refine": r, "use_refined": 0, "wd": 1, "desc": 1, "th": 0}
+                                 for d in ("intervals", "split_dbm") for r in (0, 5)]
+                    ps.append(q)
         viols, merged, _ = progsound.explore(ck, "fb%d" % off, ps, runner="bwd_runner")
         count(merged)
         report(ck, viols, "forward+backward")
